@@ -237,7 +237,13 @@ class Interp:
                 return ("func", e["name"])
             return self.load(self.lval(e, fr), fr, e)
         if k == "cast":
-            return self.ev(e["e"], fr)
+            v = self.ev(e["e"], fr)
+            if hasattr(self.dom, "narrow") and v[0] not in ("int", "anyint", "null", "node"):
+                t_out = self.unit.types[e["t"]] if e.get("t") is not None else None
+                t_in = self.unit.type_of(e["e"])
+                if t_out and t_in and t_out.get("w") and t_in.get("w") and t_out["w"] < t_in["w"]:
+                    return self.dom.narrow(self, v, t_out["w"], line(e))      # part of the value is dropped: no longer the value itself
+            return v
         if k == "member":
             return self.load(self.lval(e, fr), fr, e)
         if k == "idx":
